@@ -225,6 +225,7 @@ func genPlan(r *RNG, nBlocks int, addrs []sdk.AccAddress) ([][]genOp, [][]genTx,
 	var desc []string
 	pick := func() sdk.AccAddress { return addrs[r.Intn(len(addrs))] }
 	markers := []string{}
+	markerMgr := map[string]int{}
 	names := []string{}
 	scopeSpecs := []metadatatypes.MetadataAddress{}
 	nextMarket := uint32(1)
@@ -269,7 +270,9 @@ func genPlan(r *RNG, nBlocks int, addrs []sdk.AccAddress) ([][]genOp, [][]genTx,
 				})
 			case 2: // marker
 				denom := fmt.Sprintf("mk%dcoin", len(markers))
-				mgr := pick()
+				mgrIdx := r.Intn(len(addrs))
+				mgr := addrs[mgrIdx]
+				markerMgr[denom] = mgrIdx
 				fixed := r.Bool()
 				mtype := markertypes.MarkerType_Coin
 				if r.Bool() {
@@ -531,9 +534,41 @@ func genPlan(r *RNG, nBlocks int, addrs []sdk.AccAddress) ([][]genOp, [][]genTx,
 				})
 			}
 		}
+		// transient state at the export boundary: keeper-level ops run BEFORE this block's
+		// BeginBlocker, which purges destroyed markers at once, so a marker can only be in the
+		// destroyed status when the export is taken if a TRANSACTION of the last block cancels and
+		// deletes it (the next BeginBlocker would remove it together with its account).
+		var txs []genTx
+		if b == nBlocks-1 && len(markers) > 0 && r.Chance(45) {
+			denom := markers[r.Intn(len(markers))]
+			mi := markerMgr[denom]
+			mgr := addrs[mi]
+			desc = append(desc, "tx-markerdestroy:"+denom)
+			ops = append(ops, func(c *genChain, ctx sdk.Context) error {
+				// everything in circulation goes back to the marker account first
+				m, err := c.a.MarkerKeeper.GetMarkerByDenom(ctx, denom)
+				if err != nil {
+					return err
+				}
+				for _, a := range addrs {
+					if bal := c.a.BankKeeper.GetBalance(ctx, a, denom); bal.IsPositive() {
+						if err := c.a.BankKeeper.SendCoins(markertypes.WithBypass(ctx), a, m.GetAddress(), sdk.NewCoins(bal)); err != nil {
+							return err
+						}
+					}
+				}
+				return nil
+			})
+			txs = append(txs, genTx{signer: mi, gas: 900000, fee: sdk.NewCoins(sdk.NewInt64Coin("nhash", 5_000_000_000)),
+				msgs: func(c *genChain) []sdk.Msg {
+					return []sdk.Msg{
+						&markertypes.MsgCancelRequest{Denom: denom, Administrator: mgr.String()},
+						&markertypes.MsgDeleteRequest{Denom: denom, Administrator: mgr.String()},
+					}
+				}})
+		}
 		plan = append(plan, ops)
 		// signed transactions delivered through FinalizeBlock in this block
-		var txs []genTx
 		ntx := r.Intn(4)
 		for i := 0; i < ntx; i++ {
 			signer := r.Intn(len(addrs))
@@ -978,6 +1013,17 @@ func genCase(t *testing.T, seed uint64, nBlocks int, out *Out) (string, string) 
 	_ = db3.Close()
 	// genesis round trip
 	round := "same"
+	{
+		// measured: how often the export boundary carries a marker in the destroyed status
+		cctx := c1.a.BaseApp.NewUncachedContext(false, cmtproto.Header{ChainID: genChainID, Height: c1.height, Time: c1.now})
+		c1.a.MarkerKeeper.IterateMarkers(cctx, func(m markertypes.MarkerAccountI) bool {
+			if m.GetStatus() == markertypes.StatusDestroyed {
+				out.Count("export:destroyed-marker-present")
+				return true
+			}
+			return false
+		})
+	}
 	exp1, appState, err := genExportCustom(t, c1.a)
 	if err != nil {
 		round = "err:export"
